@@ -174,7 +174,10 @@ def write_evidence(
     ]
     explanation = (
         "Static analysis of the current working tree (ast-based; no repository code "
-        "is imported or executed). Each rule enumerates its instances from the "
+        "is imported or executed). The rules read the canonical form of every function "
+        "(sa/canon.py: one normal form among behaviour-preserving spellings; helpers that are "
+        "not in the frozen function list are inlined first, sa/inline.py), so a "
+        "behaviour-preserving refactoring does not change what they see. Each rule enumerates its instances from the "
         "source (classes by base class, call sites by callee, tables by constant "
         "folding), decides an exact structural necessary condition of the property "
         "for each instance, and fails closed (exit 2) when fewer instances than the "
